@@ -246,8 +246,8 @@ Render(k, j) ==
 (* judged (Regime):                                                          *)
 (*   "P" positional: 10^-9 <= |x| < 10^15 (and not more than 20 characters), *)
 (*   "S" scientific: |x| >= 10^20, and |x| < 10^-9 when the positional       *)
-(*       notation would need more than 20 characters (0.00..01 with 19       *)
-(*       zeros after the point: 1E-20),                                      *)
+(*       notation would need more than 20 characters (1E-19 would be         *)
+(*       0.0000000000000000001, 21 characters),                              *)
 (*   "U" not judged: 10^15 <= |x| < 10^20 (16..20 digit integers: Excel      *)
 (*       pads the 15 digits with zeros up to some width and switches to the  *)
 (*       exponent somewhere in this range), |x| < 10^-9 in less than 21      *)
@@ -259,7 +259,7 @@ MaxWidth == 20
 SigDigits(k) == DropTrailingZeros(DigitsOf(Abs(k)), 1)      \* m (k # 0)
 DecExp(k, j) == Len(DigitsOf(Abs(k))) - 1 - j               \* e (k # 0)
 
-\* characters of the positional notation of m * 10^(e - t + 1), without sign
+\* characters the positional notation of m1.m2..mt * 10^e needs, without sign
 PosWidth(m, e) == IF e >= 0 THEN (IF Len(m) > e + 1 THEN Len(m) + 1 ELSE e + 1)
                   ELSE 1 - e + Len(m)                        \* "0." zeros m
 
